@@ -25,7 +25,8 @@ CONSTANTS Ls,        \* set of host lengths
           Chunk,     \* features per host table
           Stride,    \* take every Stride-th case (quick tier sampling) ...
           Offset,    \* ... starting at Offset (seed)
-          MaxGuest   \* guest lengths 1..MaxGuest
+          MaxGuest,  \* guest lengths 1..MaxGuest
+          PureLen    \* purity programs: up to PureLen operations
 
 (***************************************************************************)
 (* Bounded universe of location terms for length L                         *)
@@ -152,27 +153,81 @@ Program(L, x) ==
                  Law("pieces", "r0", "c") >>
     [] OTHER -> << >>
 
+(***************************************************************************)
+(* Purity programs (C11): 1..PureLen operations applied to the SAME        *)
+(* original values, in every storage configuration; the harness passes the *)
+(* arguments as they are (no defensive copies) and re-reads every record   *)
+(* through its accessors after every call (probe events).                  *)
+(***************************************************************************)
+PureOps ==
+  << [op |-> "insert", guest |-> "g0", i |-> 2], [op |-> "insert", guest |-> "g0", i |-> 0],
+     [op |-> "embed", guest |-> "g0", i |-> 3], [op |-> "delete", i |-> 1, n |-> 2], [op |-> "erase", i |-> 2, n |-> 3],
+     [op |-> "slice", s |-> 1, e |-> 5], [op |-> "slice", s |-> 4, e |-> 2], [op |-> "rotate", n |-> 2],
+     [op |-> "reverse"], [op |-> "complement"], [op |-> "transcribe"], [op |-> "concatg"], [op |-> "concat2"],
+     [op |-> "repair"], [op |-> "filter", sel |-> "gene"], [op |-> "finsert", feat |-> [key |-> "gene", label |-> "new", loc |-> Rg(1, 3, FALSE, FALSE)]],
+     [op |-> "withfeatures"], [op |-> "withbytes"], [op |-> "withinfo"], [op |-> "copy"] >>
+NPure == Len(PureOps)
+Stores == <<"exact", "spare", "sub", "adjacent", "parsedorigin">>
+Kinds == <<"gb", "basic">>
+\* <<"pure", code, cfg>>: code = base-NPure numeral of the op sequence (PureLen digits, 0 = no op), cfg = store x kind
+RECURSIVE PowN(_, _)
+PowN(b, n) == IF n = 0 THEN 1 ELSE b * PowN(b, n - 1)
+PureInstances == {<<"pure", c, g>> : c \in 1..(PowN(NPure + 1, PureLen) - 1), g \in 0..(Len(Stores) * Len(Kinds) - 1)}
+RECURSIVE Digits(_, _)
+Digits(c, n) == IF n = 0 THEN <<>> ELSE <<c % (NPure + 1)>> \o Digits(c \div (NPure + 1), n - 1)
+PureSeq(c) == SelectSeq(Digits(c, PureLen), LAMBDA d : d # 0)
+PureProgram(c) ==
+  LET ds == PureSeq(c)
+      mk(j) == LET t == PureOps[ds[j]]
+                   dst == "x" \o ToString(j)
+               IN IF t.op = "concatg" THEN [op |-> "concat", srcs |-> <<"r0", "g0">>, dst |-> dst]
+                  ELSE IF t.op = "concat2" THEN [op |-> "concat", srcs |-> <<"r0", "r0">>, dst |-> dst]
+                  ELSE t @@ [src |-> "r0", dst |-> dst]
+      again == [mk(1) EXCEPT !.dst = "y1"]
+  \* after the sequence, the first operation is applied to the same value
+  \* again: it must give the same result as the first time
+  IN [j \in 1..Len(ds) |-> mk(j)] \o <<again, Law("sameraw", "x1", "y1")>>
+PureFeats ==
+  << FeatRec(Rg(0, 6, FALSE, FALSE), "s", "source"),
+     FeatRec(Jn(<<Rg(0, 3, TRUE, FALSE), Rg(3, 6, FALSE, TRUE)>>), "s2", "source"),
+     FeatRec(Rg(1, 4, TRUE, FALSE), "f1", "gene"),
+     FeatRec(Jn(<<Rg(0, 2, FALSE, FALSE), Rg(3, 5, FALSE, TRUE)>>), "f2", "gene"),
+     FeatRec(Cp(Od(<<Pt(1), Rg(4, 6, FALSE, FALSE)>>)), "f3", "gene"),
+     FeatRec(Bw(3), "f4", "misc"), FeatRec(Pt(5), "f5", "gene") >>
+PureRecs(g) ==
+  LET st == Stores[(g % Len(Stores)) + 1]
+      kd == Kinds[(g \div Len(Stores)) + 1]
+  IN << [name |-> "r0", res |-> [j \in 1..6 |-> 96 + j], topo |-> "circular", kind |-> kd,
+         store |-> st, buf |-> "B", off |-> 0, feats |-> PureFeats],
+        [name |-> "g0", res |-> [j \in 1..2 |-> 64 + j], topo |-> "na", kind |-> "basic",
+         store |-> st, buf |-> "B", off |-> 6, feats |-> <<FeatRec(Rg(0, 2, FALSE, FALSE), "g1", "gene")>>] >>
+
 TopoFor(x) == IF x[1] \in {"rotate", "rot2", "slice"} THEN "circular" ELSE "linear"
 
 Instances(L) ==
   CASE Family = "edit" -> {x \in EditInstances(L) : x[1] \in OpKinds}
     [] Family = "rot2" -> {<<"rot2", a, b>> : a \in (0 - L)..(2 * L), b \in (0 - L)..(2 * L)}
+    [] Family = "pure" -> PureInstances
     [] Family = "cuts" -> {<<"cuts", m, 0>> : m \in 0..(Pow2(L - 1) - 1)} \ {x \in {<<"cuts", m, 0>> : m \in 0..(Pow2(L - 1) - 1)} : Len(CutsOf(x[2], L)) > MaxCuts}
     [] OTHER -> {}
 
 \* all cases: <<L, chunk, instance>>
-AllCases == UNION {{<<L, c, x>> : c \in 1..NChunks(L), x \in Instances(L)} : L \in Ls}
+AllCases == UNION {{<<L, c, x>> : c \in (IF Family = "pure" THEN {1} ELSE 1..NChunks(L)), x \in Instances(L)} : L \in Ls}
 CaseSeq == SetToSeq(AllCases)
 PickedSeq == SelectSeq([j \in 1..Len(CaseSeq) |-> <<j, CaseSeq[j]>>], LAMBDA p : p[1] % Stride = Offset % Stride)
 
 CaseId(cs) == "L" \o ToString(cs[1]) \o ".c" \o ToString(cs[2]) \o "." \o cs[3][1] \o "." \o ToString(cs[3][2]) \o "." \o ToString(cs[3][3])
 
 CaseRecs(cs) ==
+  IF cs[3][1] = "pure" THEN PureRecs(cs[3][3]) ELSE
   LET L == cs[1]  x == cs[3]
       host == HostRec(L, cs[2], TopoFor(x))
   IN IF x[1] \in {"insert", "embed"} THEN <<host, GuestRec(x[3])>> ELSE <<host>>
 
-CaseJson(cs) == [id |-> CaseId(cs), recs |-> CaseRecs(cs), ops |-> Program(cs[1], cs[3])]
+CaseJson(cs) ==
+  IF cs[3][1] = "pure"
+  THEN [id |-> CaseId(cs), recs |-> CaseRecs(cs), ops |-> PureProgram(cs[3][2]), pure |-> TRUE, noext |-> TRUE]
+  ELSE [id |-> CaseId(cs), recs |-> CaseRecs(cs), ops |-> Program(cs[1], cs[3])]
 
 (***************************************************************************)
 (* Running a program on the calculus layer                                 *)
